@@ -119,6 +119,29 @@ Section Parser.
   Definition set_md (p : pst) m := mkP (stk p) (ctr p) (unt p) (abs p) m.
   Definition push (p : pst) (x : option val) := set_stk p (x :: stk p).
 
+  (* the `*` branch first applies a pending operator to the parameters parsed so far
+     (/repo d741af8: `F(A) * B` is a product whose left operand is F(A)):
+       i = len(stack); while i > 0 and isinstance(stack[i-1], TypeInstance): i -= 1
+       if 0 < i < len(stack) and stack[i-1] is not Product and it is an operator/alias:
+           stack[i-1:] = [stack[i-1] applied to stack[i:]]                                *)
+  Fixpoint split_insts (s : list titem) (acc : list pty) : list pty * list titem :=
+    match s with
+    | TInst t :: r => split_insts r (t :: acc)      (* acc ends up in stack order, bottom first *)
+    | _ => (acc, s)
+    end.
+
+  Definition star_collapse (stack : list titem) : outcome (list titem) :=
+    match split_insts stack [] with
+    | (args, TCon c :: r) =>
+        match args with
+        | [] => Ok stack
+        | _ :: _ =>
+            if Nat.eqb (fst c) (fst c_product) then Ok stack
+            else bind (mk_tapp c args) (fun t => Ok (TInst t :: r))
+        end
+    | _ => Ok stack
+    end.
+
   (* ----- parse_type, one token (lines 393-426) ----- *)
   Definition ty_push (st : list titem * Z) (x : titem) : outcome (list titem * Z) :=
     Ok (x :: fst st, snd st).
@@ -131,11 +154,12 @@ Section Parser.
         if str_eqb t s_rp then Ok (stack', (level - 1)%Z) else Ok (TNone :: stack', level))
     else if str_eqb t s_us then ty_push st (TInst PVar)
     else if str_eqb t s_star then
-      match stack with
-      | [] => Crash STypePop
-      | TInst t1 :: r => Ok (TInst t1 :: TCon c_product :: r, level)
-      | _ :: _ => Err EParse            (* fixed; pinned: assert isinstance(t1, TypeInstance) *)
-      end
+      bind (star_collapse stack) (fun stack1 =>
+        match stack1 with
+        | [] => Crash STypePop
+        | TInst t1 :: r => Ok (TInst t1 :: TCon c_product :: r, level)
+        | _ :: _ => Err EParse          (* fixed; pinned: assert isinstance(t1, TypeInstance) *)
+        end)
     else if str_eqb t s_Top then ty_push st (TInst p_top)
     else if str_eqb t s_Bottom then ty_push st (TInst p_bottom)
     else match lookup_ty t with
